@@ -840,6 +840,15 @@ def sec_plumbing(rec, kind="zncc", shape=(1, 2, 2), patches=None):
         return to_symarray(sh), sc
 
     setattr(CC, fn, stand_in)
+    lfn = {"zncc": "zncc_landscape_with_crop", "ncc": "ncc_landscape_with_crop", "pcc": "pcc_landscape", "fsc": "fsc_landscape"}[kind]
+    lsent = object()
+
+    def land_stand_in(img0, img1, *args, **kw):
+        cap["land"] = (img0, img1, args, kw)
+        return lsent
+
+    setattr(CC, lfn, land_stand_in)
+    xp.asnumpy = lambda x: x
     Model = getattr(CC, name)
     tag = f"plumbing[{kind}]"
     rp = replay_planted(kind, tuple(s % 2 for s in shape))
@@ -850,6 +859,7 @@ def sec_plumbing(rec, kind="zncc", shape=(1, 2, 2), patches=None):
         res = model.align(a, ms, backend=xp)
         del xp._ndi_.calls[:]
         fitted, res2 = model.fit(a, ms, backend=xp)
+        cap["land_out"] = model.landscape(a, ms, backend=xp)
         return res, dict(cap), fitted, res2, list(xp._ndi_.calls)
 
     for pi, p in enumerate(explore(run, assumptions=hyps, max_paths=10)):
@@ -870,7 +880,9 @@ def sec_plumbing(rec, kind="zncc", shape=(1, 2, 2), patches=None):
             want1[k] = T_[k] * M_[k]
         if kind in ("pcc", "fsc"):
             want0, want1 = xp.fftn(want0), xp.fftn(want1)
-        for via, (img0, img1, args, kw) in zip(("align", "fit"), cp["args"]):
+        okl = cp.get("land") is not None and cp.get("land_out") is lsent
+        rec.fact(f"{tag}/path{pi}/landscape()-returns-the-backend-landscape", bool(okl), key=f"C04/{kind}/landscape-plumbing", detail={}, reproduced=True if okl else rp({})[0])
+        for via, (img0, img1, args, kw) in zip(("align", "fit", "landscape"), cp["args"] + ([cp["land"]] if okl else [])):
             g = []
             okshape = np.shape(img0) == tuple(shape) and np.shape(img1) == tuple(shape)
             if okshape:
@@ -879,10 +891,10 @@ def sec_plumbing(rec, kind="zncc", shape=(1, 2, 2), patches=None):
                         x, y = C.SymComplex.of(got), C.SymComplex.of(want)
                         g.append(z3.And(zr(x.re) == zr(y.re), zr(x.im) == zr(y.im)))
             rec.query(f"{tag}/path{pi}/{via}/backend-gets-(sub-volume*mask,template*mask)-in-this-order", h, z3.And(*g) if okshape else z3.BoolVal(False), key=f"C04/{kind}/argument-order", replay=rp, twin=False)
-            mpass = kw.get("max_shifts", args[-2] if kind == "pcc" and len(args) >= 2 else (args[0] if args else None))
+            mpass = kw.get("max_shifts", (args[-2] if kind == "pcc" and via != "landscape" and len(args) >= 2 else (args[0] if args else None)))
             okm = mpass is not None and len(tuple(mpass)) == 3
             rec.query(f"{tag}/path{pi}/{via}/max_shifts-passed-unchanged", h, z3.And(*[zr(x) == y.e for x, y in zip(mpass, ms)]) if okm else z3.BoolVal(False), key=f"C04/{kind}/max-shifts-passed", replay=rp, twin=False)
-            if kind == "pcc":
+            if kind == "pcc" and via != "landscape":
                 rec.fact(f"{tag}/path{pi}/{via}/upsample_factor=20", kw.get("upsample_factor", args[0] if args else None) == UP, key="C04/pcc/upsample-factor", detail={}, reproduced=None)
         for nm, r in (("align", res), ("fit", res2)):
             rec.query(f"{tag}/path{pi}/{nm}/shift-is-the-backend-shift", h, z3.And(*[zr(r.shift[k]) == sh[k].e for k in range(3)]), key=f"C04/{kind}/shift-passed", replay=rp, twin=False)
@@ -901,6 +913,77 @@ def sec_plumbing(rec, kind="zncc", shape=(1, 2, 2), patches=None):
                     g.append(zr(M[i, j]) == (1 if i == j else 0))
                 g.append(zr(M[i, 3]) == sh[i].e)
             rec.query(f"{tag}/path{pi}/fit/output[o]=sub-volume[o+shift]", h, z3.And(*g), key=f"C04/{kind}/fit-transform", replay=rp, twin=False)
+
+
+# ---------------------------------------------------------------------------------------
+# section: the up-sampled landscape of model.landscape(..., upsample=u): entry j <-> lag (j - int(m u)) / u
+
+
+def sec_landscape_upsampled(rec, kind="zncc", box=(6, 5, 7), axis=0, u=4, others=(1.0, 0.5), patches=None):
+    import scipy.fft as sfft
+
+    stubs.patch_dask_from_delayed()
+    L = load.load(c07.MODS, overrides={"np": BlindNP(symbolic_float_arrays=False)}, patches=patches)
+    API = L["acryo.backend._api"]
+    xp = stubs.make_backend(API, API.np, stubs.HybridNdi(), sfft)
+    B, CC = L["acryo.alignment._base"], L["acryo.alignment._concrete"]
+    B.Backend = lambda *a, **k: xp
+    name = {"zncc": "ZNCCAlignment", "ncc": "NCCAlignment", "pcc": "PCCAlignment", "fsc": "FSCAlignment"}[kind]
+    rec.encodes("acryo/alignment/_base.py:BaseAlignmentModel.landscape", "acryo/backend/_mesh.py:build_mesh", f"acryo/alignment/_concrete.py:{name}._landscape")
+    rec.assume("the un-sampled landscape (computed on concrete data with max_shifts + 2) has its zero lag at its centre entry (sections semantics / pcc-index / fsc-phases); map_coordinates samples it at the recorded mesh")
+    cap = {}
+    orig = xp.map_coordinates
+
+    def mc(inp, coords, **kw):
+        out = orig(inp, coords, **kw)
+        cap["mesh"], cap["inp"] = getattr(out, "mesh", None), inp
+        return out
+
+    xp.map_coordinates = mc
+    rng = np.random.default_rng(0)
+    t = rng.normal(size=box).astype(np.float32)
+    a = rng.normal(size=box).astype(np.float32)
+    msym = real(f"m{axis}")
+    hyps = [msym.e >= 0, msym.e <= Fraction(box[axis] - 1, 2) - 2 if kind == "pcc" else msym.e <= box[axis]]
+    ms = list(others)
+    ms.insert(axis, msym)
+    ms = tuple(ms)
+    names = {f"m{axis}"}
+    tag = f"landscape-upsampled[{kind},box={box},axis={axis},u={u}]"
+    rpl = replay_planted(kind, tuple(s_ % 2 for s_ in box), landscape=True)
+
+    def run():
+        cap.clear()
+        model = getattr(CC, name)(t)
+        out = model.landscape(a, ms, upsample=u, backend=xp)
+        return out, dict(cap)
+
+    paths = explore(run, assumptions=hyps, max_paths=200)
+    n_ok = 0
+    for pi, p in enumerate(paths):
+        h = hyps + [p.condition()]
+        if not p.ok:
+            ok, det = rpl({})
+            rec.fact(f"{tag}/path{pi}/runs", False, key=f"C04/{kind}/landscape-upsampled-raises", detail={"exc": repr(p.exc)[:300], **det}, reproduced=ok)
+            continue
+        n_ok += 1
+        out, cp = p.result
+        mesh, inp = cp.get("mesh"), cp.get("inp")
+        okcap = mesh is not None and inp is not None and tuple(np.shape(out)) == tuple(mesh.shape[-3:]) if hasattr(mesh, "shape") else False
+        rec.fact(f"{tag}/path{pi}/result-is-the-landscape-sampled-on-one-mesh", bool(mesh is not None and inp is not None), key=f"C04/{kind}/landscape-upsampled-structure", detail={}, reproduced=True if mesh is not None else rpl({})[0])
+        if mesh is None or inp is None:
+            continue
+        for k in range(3):
+            mk = ratz(ms[k])
+            n = np.shape(inp)[k]
+            W = z3.ToInt(mk * u)
+            rg = mesh.ranges[k]
+            start, step, length = ratz(rat(rg.start)), ratz(rat(rg.step)), zi(rg.length)
+            ctr = Fraction(n - 1, 2)
+            goal = z3.And(n % 2 == 1, length == 2 * W + 1, start - ctr == -z3.ToReal(W) / u, z3.Or(W == 0, step * u == 1))
+            rec.query(f"{tag}/path{pi}/axis{k}/entry-j<->lag-(j-int(m*u))/u", h, goal, key=f"C04/{kind}/landscape-upsampled-lag", names=names, replay=rpl)
+    if n_ok == 0:
+        rec.fact(f"{tag}/runs", False, key=f"C04/{kind}/landscape-upsampled-raises", detail={"exc": repr(paths[0].exc)[:200] if paths else "no path"}, reproduced=rpl({})[0])
 
 
 def sections(tier):
@@ -932,6 +1015,9 @@ def sections(tier):
         secs.append((f"fsc-phases-{box}".replace(" ", ""), "checks.c04", "sec_fsc_phases", {"box": box, "m": m}))
     for shape, m in (((1, 2, 4), (0, 0.5, 1.0)),) if q else (((1, 2, 4), (0, 0.5, 1.0)), ((4, 1, 2), (2.0, 0, 1)), ((2, 4, 2), (0.3, 1.5, 0))):
         secs.append((f"fsc-semantics-{shape}".replace(" ", ""), "checks.c04", "sec_fsc_semantics", {"shape": shape, "m": m}))
+    for kind in ("zncc", "ncc", "pcc", "fsc"):
+        for axis in (range(3) if not q else (0, 2)):
+            secs.append((f"landscape-upsampled-{kind}-{axis}", "checks.c04", "sec_landscape_upsampled", {"kind": kind, "axis": axis, "box": (10, 9, 11) if kind == "pcc" else (6, 5, 7)}))
     for kind in ("zncc", "ncc", "pcc", "fsc"):
         secs.append((f"plumbing-{kind}", "checks.c04", "sec_plumbing", {"kind": kind}))
         if not q:
@@ -973,6 +1059,10 @@ MUTANTS = [
     ("pcc-shift-negated", "checks.c04", "sec_plumbing", {"kind": "pcc"}, {"acryo.alignment._concrete": [("        return shift, self._DUMMY_QUAT, pcc", "        return -shift, self._DUMMY_QUAT, pcc")]}),
     ("fit-matrix-shift-negated", "checks.c04", "sec_plumbing", {"kind": "fsc"}, {"acryo.alignment._base": [("shift_matrix[:3, 3] = self.shift", "shift_matrix[:3, 3] = -self.shift")]}),
     ("optimize-single-unmasked-subvolume", "checks.c04", "sec_plumbing", {"kind": "ncc"}, {"acryo.alignment._base": [("        out = self._optimize(\n            self.pre_transform(subvolume * mask, backend),", "        out = self._optimize(\n            self.pre_transform(subvolume, backend),")]}),
+    ("landscape-mesh-centre-off-by-half", "checks.c04", "sec_landscape_upsampled", {"kind": "zncc", "axis": 0}, {"acryo.backend._mesh": [("center = np.array(shape) / 2 - 0.5", "center = np.array(shape) / 2")]}),
+    ("landscape-mesh-width-not-divided", "checks.c04", "sec_landscape_upsampled", {"kind": "fsc", "axis": 2}, {"acryo.backend._mesh": [("backend.linspace(c - width / upsample, c + width / upsample, 2 * width + 1)", "backend.linspace(c - width, c + width, 2 * width + 1)")]}),
+    ("landscape-mesh-one-node-short", "checks.c04", "sec_landscape_upsampled", {"kind": "ncc", "axis": 0}, {"acryo.backend._mesh": [("c + width / upsample, 2 * width + 1)", "c + width / upsample, 2 * width)")]}),
+    ("landscape-args-swapped", "checks.c04", "sec_plumbing", {"kind": "fsc"}, {"acryo.alignment._concrete": [("        return fsc_landscape(\n            subvolume * mw,\n            template * mw,", "        return fsc_landscape(\n            template * mw,\n            subvolume * mw,")]}),
     ("fsc-upsample-with-pad", "checks.c04", "sec_decode", {"kind": "fsc", "axis": 0}, {_F: [("return upsample(out, out, max_shifts, (0, 0, 0), backend=backend)", "return upsample(out, out, max_shifts, (1, 1, 1), backend=backend)")]}),
 ]
 
